@@ -653,3 +653,36 @@ def close_clause(ctx):
     ctx.check(any(isinstance(r.value, ast.Call) and call_name(r.value) == "io.BufferedWriter" and dotted(r.value.args[0]) == "fobj" for r in nodes_of_type(bw, ast.Return)), bw, "buffered writer = io.BufferedWriter(raw) (close() flushes then closes raw)")
     br = ctx.repo.func(NPU, "_buffered_read_file")
     ctx.check(any(isinstance(r.value, ast.Call) and call_name(r.value) == "io.BufferedReader" and dotted(r.value.args[0]) == "fobj" for r in nodes_of_type(br, ast.Return)), br, "buffered reader = io.BufferedReader(raw)")
+
+
+def arg_resolution(ctx):
+    """compress argument forms: True / int / name / (name, level) / extension-implied"""
+    from ..core import cond_holds, has_stmt
+    f = ctx.repo.func(NP, "dump")
+    g = cfg_of(f)
+    t_true = [n for n in nodes_of_type(f, ast.If) if unparse(n.test) == "compress is True"]
+    ctx.check(bool(t_true) and has_stmt(t_true[0].body, "compress_level = None"), t_true[0] if t_true else f, "compress=True: default method, default level (None)")
+    dflt = [a for a in nodes_of_type(f, ast.Assign) if "compress_method" in stores_to(a) and const_value(a.value) == "zlib"]
+    ctx.check(bool(dflt), dflt[0] if dflt else f, "default method is zlib")
+    tup = [n for n in nodes_of_type(f, ast.If) if unparse(n.test) == "isinstance(compress, tuple)"]
+    ok = bool(tup) and has_stmt(tup[0].body, "compress_method, compress_level = compress") and any(isinstance(n_, ast.If) and unparse(n_.test) == "len(compress) != 2" and any(isinstance(x, ast.Raise) for x in n_.body) for n_ in tup[0].body)
+    ctx.check(ok, tup[0] if tup else f, "(name, level): unpacked in that order, other lengths rejected", "tuple form of compress is not unpacked as (method, level)")
+    st = [n for n in nodes_of_type(f, ast.If) if unparse(n.test) == "isinstance(compress, str)"]
+    ok = bool(st) and has_stmt(st[0].body, "compress_method = compress") and has_stmt(st[0].body, "compress_level = None")
+    ctx.check(ok, st[0] if st else f, "name: that method with its default level")
+    if st:
+        ctx.check(has_stmt(st[0].orelse, "compress_level = compress"), st[0], "anything else is the level (bool/int) with the default method")
+    ext = [l for l in nodes_of_type(f, ast.For) if unparse(l.iter) == "_COMPRESSORS.items()"]
+    ctx.need(ext, "extension loop not found in dump")
+    lp = ext[0]
+    tests = [n for n in lp.body if isinstance(n, ast.If)]
+    ok = bool(tests) and unparse(tests[0].test) == "filename.endswith(%s.extension)" % dotted(lp.target.elts[1]) and has_stmt(tests[0].body, "compress_method = %s" % dotted(lp.target.elts[0]))
+    ctx.check(ok, lp, "a file name ending with a registered extension selects that compressor", "extension matching is %s" % (unparse(tests[0].test) if tests else None))
+    conds = g.conditions_at(g.nodes_of(lp))
+    ctx.check(cond_holds(conds, "is_filename and (not isinstance(compress, tuple))", True), lp, "only for path targets without an explicit (method, level)")
+    imp = [n for n in nodes_of_type(f, ast.If) if unparse(n.test) == "compress_method in _COMPRESSORS and compress_level == 0"]
+    ctx.check(bool(imp) and has_stmt(imp[0].body, "compress_level = None"), imp[0] if imp else f, "an extension-implied compressor with level 0/False still compresses (default level)")
+    fo = [a for a in nodes_of_type(f, ast.Assign) if "is_fileobj" in stores_to(a)]
+    ctx.check(bool(fo) and unparse(fo[0].value) == "hasattr(filename, 'write')", fo[0] if fo else f, "file objects are recognised by their write method")
+    rej = [n for n in nodes_of_type(f, ast.If) if unparse(n.test) == "not is_filename and (not is_fileobj)" and any(isinstance(x, ast.Raise) for x in n.body)]
+    ctx.check(bool(rej), rej[0] if rej else f, "other targets are rejected")
